@@ -256,7 +256,12 @@ func (p *Proxy) handleRawMessage(rawMessage *RawMessage) (*Message, error) {
 		if err == nil {
 			transId, err := msg.GetClientTransaction()
 			if err == nil {
-				trans, err := p.clientTransMgr.GetTransport("tcp", host, port, p.localAddress, transId)
+				// key the entry by the resolved address, as sendMessage does when it looks it up
+				ip, err := p.resolver.GetIp(host)
+				if err != nil {
+					ip = host
+				}
+				trans, err := p.clientTransMgr.GetTransport("tcp", ip, port, p.localAddress, transId)
 				if err == nil {
 					trans.primary, _ = NewTCPClientTransportWithConn(rawMessage.TcpConn)
 				}
@@ -649,7 +654,7 @@ func (p *Proxy) sendMessage(host string, port int, transport string, msg *Messag
 	t, err := p.findClientTransport(ip, port, transport, transId)
 	if err == nil {
 		if msg.IsFinalResponse() {
-			p.clientTransMgr.RemoveTransport(transport, host, port, transId)
+			p.clientTransMgr.RemoveTransport(transport, ip, port, transId)
 		}
 		t.Send(msg)
 	} else {
